@@ -2,6 +2,7 @@
 mod battery;
 mod c03;
 mod c04;
+mod c05;
 mod c07;
 mod c08;
 mod c09;
@@ -69,6 +70,7 @@ fn main() {
     let report = match argv[1].as_str() {
         "c03" => c03::run(&a),
         "c04" => c04::run(&a),
+        "c05" => c05::run(&a),
         "c07" => c07::run(&a),
         "c08" => c08::run(&a),
         "c09" => c09::run(&a),
